@@ -105,6 +105,33 @@ impl Mutator<Vec<bool>> for Probe {
     }
 }
 
+/// Zero-sized genome: nothing to change, but the wrapped mutator still draws and may still fail.
+impl Mutator<()> for Probe {
+    type Error = PErr;
+
+    fn mutate<R: Rng + ?Sized>(&self, genome: (), rng: &mut R) -> Result<(), PErr> {
+        self.fire(rng).map(|_| genome)
+    }
+}
+
+impl Recombinator<[(); 2]> for Probe {
+    type Output = ();
+    type Error = PErr;
+
+    fn recombine<R: Rng + ?Sized>(&self, _: [(); 2], rng: &mut R) -> Result<(), PErr> {
+        self.fire(rng).map(|_| ())
+    }
+}
+
+impl Operator<()> for Probe {
+    type Output = u64;
+    type Error = PErr;
+
+    fn apply<R: Rng + ?Sized>(&self, (): (), rng: &mut R) -> Result<u64, PErr> {
+        self.fire(rng)
+    }
+}
+
 impl Recombinator<[Vec<u32>; 2]> for Probe {
     type Output = Vec<u32>;
     type Error = PErr;
@@ -499,7 +526,7 @@ struct Sc {
     rng: RngSpec,
 }
 
-const IMPLS: [u8; 5] = [7, 6, 5, 5, 4];
+const IMPLS: [u8; 5] = [7, 8, 7, 7, 4];
 
 fn make_pop(n: usize, seed: u64) -> Pop {
     let mut g = Xo::from_seed(seed);
@@ -587,7 +614,10 @@ impl Check for C17 {
                     }
                     3 => mut_case("WithRate/Bitstring", || WithRate::new(0.5), None, &Bitstring { bits: bools.clone() }, &base, obs),
                     4 => mut_case("probe", probe(false), Some(calls.clone()), &bools, &base, obs),
-                    _ => mut_case("probe-failing", probe(true), Some(calls.clone()), &bools, &base, obs),
+                    5 => mut_case("probe-failing", probe(true), Some(calls.clone()), &bools, &base, obs),
+                    // zero-sized genomes: the wrapper must still dispatch (draws, errors)
+                    6 => mut_case("probe/zero-sized-genome", probe(false), Some(calls.clone()), &(), &base, obs),
+                    _ => mut_case("probe-failing/zero-sized-genome", probe(true), Some(calls.clone()), &(), &base, obs),
                 }
             }
             2 => {
@@ -604,7 +634,9 @@ impl Check for C17 {
                         rec_case("TwoPointXo/[Bitstring;2]", || TwoPointXo, None, &[ba, bb], &base, obs)
                     }
                     3 => rec_case("probe", probe(false), Some(calls.clone()), &[a, b], &base, obs),
-                    _ => rec_case("probe-failing", probe(true), Some(calls.clone()), &[a, b], &base, obs),
+                    4 => rec_case("probe-failing", probe(true), Some(calls.clone()), &[a, b], &base, obs),
+                    5 => rec_case("probe/zero-sized-genomes", probe(false), Some(calls.clone()), &[(), ()], &base, obs),
+                    _ => rec_case("probe-failing/zero-sized-genomes", probe(true), Some(calls.clone()), &[(), ()], &base, obs),
                 }
             }
             3 => {
@@ -613,6 +645,8 @@ impl Check for C17 {
                     0 => op_case("probe", probe(false), Some(calls.clone()), &x, &base, obs),
                     1 => op_case("probe-failing", probe(true), Some(calls.clone()), &x, &base, obs),
                     2 => op_case("Identity", || Identity, None, &x, &base, obs),
+                    5 => op_case("probe/zero-sized-input", probe(false), Some(calls.clone()), &(), &base, obs),
+                    6 => op_case("probe-failing/zero-sized-input", probe(true), Some(calls.clone()), &(), &base, obs),
                     3 => {
                         let (c1, c2) = (Arc::new(AtomicUsize::new(0)), Arc::new(AtomicUsize::new(0)));
                         op_case(
